@@ -1,12 +1,19 @@
-(* C07 proofs: corollary for position-labelled expressions. *)
+(* C07 proofs: stage 5 with syntactic premises only, and the corollary for position-labelled expressions. *)
 From Coq Require Import List NArith Bool.
-From CV Require Import Ast.Defs Ast.Main4 Ast.Labels.
+From CV Require Import Ast.Defs Ast.Main4 Ast.Labels Ast.Prep.
 Import ListNotations.
 
-Lemma parse_render_canon : forall (cpp : bool) (e0 : expr), let e := canon e0 in
-  frag5 e = true -> wf e = true -> mid_ok e = true -> decl_like (render e) = false ->
-  prep (2 * length (render e ++ [semi])) (render e ++ [semi]) = render e ++ [semi] ->
+Lemma parse_render_stage5_syn : forall (cpp : bool) (e : expr),
+  frag5 e = true -> wf e = true -> labels_ok e = true -> mid_ok e = true -> plainmid e = true ->
+  decl_like (render e) = false ->
   parse cpp (render e) = Some (tree_of e).
 Proof.
-  intros cpp e0 e Hf Hw Hm Hd Hp. apply parse_render_stage5; try assumption. apply labels_ok_canon.
+  intros cpp e Hf Hw Hl Hm Hp Hd. apply parse_render_stage5; try assumption. apply prep_plainmid. exact Hp.
+Qed.
+
+Lemma parse_render_canon : forall (cpp : bool) (e0 : expr), let e := canon e0 in
+  frag5 e = true -> wf e = true -> mid_ok e = true -> plainmid e = true -> decl_like (render e) = false ->
+  parse cpp (render e) = Some (tree_of e).
+Proof.
+  intros cpp e0 e Hf Hw Hm Hp Hd. apply parse_render_stage5_syn; try assumption. apply labels_ok_canon.
 Qed.
